@@ -390,7 +390,7 @@ PROPS = {
             "App::execute / postcondition / a GET / HEAD that no built-in endpoint claims goes to the static lookup (200 + whole file) or to the not-found page (404; 500 only if a custom 404.html exists and cannot be read)",
         ],
         "assumptions": [
-            "domain (c02_domain): the target parses; its path starts with '/', holds no '..', no '#' (a '#' before the first '?' stays in the path and is cut off when the controller re-parses path ++ suffix) and does not end in '.' (path ++ '.html' would hold '..'); the selected file is a regular readable file that is not itself a symbolic link (for a link the resolved target is read; nothing is proved about it)",
+            "domain (c02_domain): the target parses; its path starts with '/', has no '..' SEGMENT and holds no '#' (a '#' before the first '?' stays in the path - known finding in the dependency - and would be cut off when the controller re-parses path ++ suffix); the selected file is a regular readable file that is not itself a symbolic link (for a link the resolved target is read; nothing is proved about it)",
             "file system: quiescent during the request; metadata().len() is the content length; reading an openable regular file succeeds; lstat succeeds on an existing path (shims/fs.rs)",
             "url-build-parse dependency: deterministic; a target that starts with '/' and holds neither '?' nor '#' is its own path (axiom_url_plain_path, read off the dependency's source, conformance-tested); that query strings / fragments are cut off is the dependency's behaviour and only assumed in this form",
             "std::path::Path::extension as specified by ext_of (conformance-tested)",
@@ -442,7 +442,7 @@ PROPS = {
         "samples": [
             "StaticResourceController::is_matching / precondition / fs_allowed(path.pview()) @ rws_metadata(&static_filepath)",
             "Range::get_content_range_list / precondition / fs_allowed(filepath@) @ Range::parse_content_range(&path, ..)",
-            "URL::is_path_inside_root / postcondition / res ==> rel_inside(path@)",
+            "URL::is_path_inside_root / postcondition / res == inside(path@): starts with '/' and no segment is '..' (two dots inside a name are fine); inside(p) ==> rel_inside(p)",
         ],
         "assumptions": [
             "fs_allowed(path) := path == cwd ++ rel with rel starting with '/' and holding no '..' segment, or the resolution of a symbolic link found under the root (the property's exemption)",
